@@ -28,6 +28,8 @@ class Stub:
         self._log = log
         self._term = term  # ("g", m, n) | ("obj", callee, args, kwargs) | ("pers", pid)
         self._states = []
+        self._li = []       # appended / extended items (the object used as a list)
+        self._di = []       # [key, value] pairs set by item assignment (the object used as a dict)
 
     def _call(self, a, k):
         self._log.append({"e": "call", "f": canon(self), "a": [canon(x) for x in a],
@@ -43,6 +45,31 @@ class Stub:
 
     def __reduce_ex__(self, p):
         raise TypeError("stubs are not picklable")
+
+    def append(self, x):
+        if self._term[0] == "g":
+            raise AttributeError("append")
+        self._log.append({"e": "append", "o": canon(self), "a": [canon(x)]})
+        self._li.append(x)
+
+    def extend(self, xs):
+        if self._term[0] == "g":
+            raise AttributeError("extend")
+        xs = list(xs)
+        self._log.append({"e": "append", "o": canon(self), "a": [canon(x) for x in xs]})
+        self._li.extend(xs)
+
+    def __setitem__(self, k, v):
+        if self._term[0] == "g":
+            raise TypeError("stand-in for a global does not support item assignment")
+        self._log.append({"e": "setitem", "o": canon(self), "k": canon(k), "v": canon(v)})
+        self._di.append((k, v))
+
+    def update(self, d=(), **kw):
+        for k, v in (d.items() if hasattr(d, "items") else d):
+            self[k] = v
+        for k, v in kw.items():
+            self[k] = v
 
     # containers of the decompiled program may call these on a stub that stands for a dict/list
     def __hash__(self):
@@ -62,10 +89,12 @@ def canon(v, path=()):
         if t[0] == "g":
             return {"k": "g", "m": normmod(sname(t[1])), "n": sname(t[2])}
         st = [canon(s, path) for s in v._states]
+        li = [canon(x, path) for x in v._li]
+        di = [[canon(a, path), canon(b, path)] for a, b in v._di]
         if t[0] == "pers":
-            return {"k": "pers", "pid": canon(t[1], path), "s": st}
+            return {"k": "pers", "pid": canon(t[1], path), "s": st, "li": li, "di": di}
         return {"k": "obj", "f": canon(t[1], path), "a": [canon(x, path) for x in t[2]],
-                "kw": [[sname(n), canon(x, path)] for n, x in t[3].items()], "s": st}
+                "kw": [[sname(n), canon(x, path)] for n, x in t[3].items()], "s": st, "li": li, "di": di}
     if isinstance(v, (list, tuple)) and type(v) in (list, tuple):
         return {"k": type(v).__name__, "e": [canon(x, path) for x in v]}
     if type(v) is dict:
